@@ -610,6 +610,30 @@ func c02FloatLiterals() []string {
 	return out
 }
 
+// embedded pointers (exported types: encoding/json refuses to allocate unexported ones)
+type C02E struct {
+	X int
+	P *int
+	S []string
+	U C02Unm
+}
+type C02Unm struct{ N int }
+
+func (u *C02Unm) UnmarshalJSON(b []byte) error { u.N = len(b); return nil }
+
+type C02T struct {
+	*C02E
+	Y int
+}
+type C02Mid struct {
+	*C02E
+	Z *C02E
+}
+type C02T2 struct {
+	*C02Mid
+	Y int
+}
+
 func runC02(c *Ctx) {
 	if !c.IsWorker() {
 		// floats where rounding decides, into every float destination and position
@@ -637,6 +661,20 @@ func runC02(c *Ctx) {
 					c02Compare(c, "float32-rounding", reflect.TypeOf(f32s{}), doc, nil, mode)
 					c02Compare(c, "float64-rounding", reflect.TypeOf(f64s{}), doc, nil, mode)
 					c02Compare(c, "float-rounding-iface", reflect.TypeOf((*interface{})(nil)).Elem(), "["+l+"]", nil, mode)
+				}
+			}
+		}
+		// embedded pointers to structs: which promoted members (null ones included) make encoding/json
+		// allocate the embedded struct
+		for _, t := range []reflect.Type{reflect.TypeOf(C02T{}), reflect.TypeOf(C02T2{}), reflect.TypeOf([]C02T{})} {
+			for _, d := range []string{`{"X":null}`, `{"X":null,"Y":1}`, `{"Y":1,"P": null}`, `{"S":null}`, `{"X":null,"X":3}`, `{"Y":2}`, `{}`, `{"X":1}`, `{"U":null}`, `{"U":5,"S":[]}`,
+				`{"Z":null}`, `{"Z":{"X":null}}`, `{"X":"wrong"}`, `null`, `{"P":7,"S":null}`} {
+				doc := d
+				if t.Kind() == reflect.Slice {
+					doc = "[" + d + "," + d + "]"
+				}
+				for _, mode := range []string{"unmarshal", "decoder", "disallow"} {
+					c02Compare(c, "embedded-pointer", t, doc, nil, mode)
 				}
 			}
 		}
